@@ -259,6 +259,64 @@ def tuple_index_chain_cases(rng, _n):
     return cases
 
 
+def std_collection_cases(rng, _n):
+    """Map and set patterns on the standard collections the documentation uses besides BTreeMap / Vec: HashMap, HashSet, VecDeque,
+    LinkedList, BinaryHeap, arrays, slices behind a reference, Box / Rc / Arc of them.  The patterns never make a whole hash
+    collection's Debug text part of an entry (its order is not fixed)."""
+    import tgen
+    cases = []
+    k = 0
+    ints = lambda l: " ".join("(int %d)" % x for x in l)
+    strs = lambda l: " ".join("(str %s)" % tgen.hexs(x) for x in l)
+    meanings = "(meanings %s %s (r %s (int 1) (int 3) true))" % (" ".join("(v %s (int %d))" % (tgen.hexs(str(x)), x) for x in range(0, 10)),
+                                                                " ".join("(v %s (str %s))" % (tgen.hexs('"%s"' % x), tgen.hexs(x)) for x in ("a", "b", "c", "zz")), tgen.hexs("1..=3"))
+    sets = [("std::collections::HashSet<i32>", "std::collections::HashSet::from([1, 2, 3])"), ("std::collections::VecDeque<i32>", "std::collections::VecDeque::from([1, 2, 3])"),
+            ("std::collections::LinkedList<i32>", "std::collections::LinkedList::from([1, 2, 3])"), ("std::collections::BinaryHeap<i32>", "std::collections::BinaryHeap::from([1, 2, 3])"),
+            ("[i32; 3]", "[1, 2, 3]"), ("&'static [i32]", "&[1, 2, 3]"), ("Box<[i32]>", "vec![1, 2, 3].into_boxed_slice()"), ("std::rc::Rc<Vec<i32>>", "std::rc::Rc::new(vec![1, 2, 3])"),
+            ("std::sync::Arc<std::collections::BTreeSet<i32>>", "std::sync::Arc::new(std::collections::BTreeSet::from([1, 2, 3]))")]
+    spats = ["#(3, 2, 1)", "#(1, 2)", "#(1, 2, ..)", "#(> 2, > 2, ..)", "#(1..=3, 1..=3, 1..=3)", "#(9, ..)", "#(..)", "#(_, _, _)", "#(1, 2, 3, 4)"]
+    for ty, val in sets:
+        for pt in spats:
+            c = t3.Case()
+            c.id = k
+            k += 1
+            c.forms = {"std-collection": 1}
+            c.perturbed = True
+            c.meanings = meanings
+            t3.finish_case(c, "", ty, val, "(setv %s)" % ints([1, 2, 3]), pt)
+            cases.append(c)
+    maps = [("std::collections::HashMap<String, i32>", 'std::collections::HashMap::from([("a".to_string(), 1), ("b".to_string(), 2)])'),
+            ("std::collections::BTreeMap<String, i32>", 'std::collections::BTreeMap::from([("a".to_string(), 1), ("b".to_string(), 2)])'),
+            ("Box<std::collections::HashMap<String, i32>>", 'Box::new(std::collections::HashMap::from([("a".to_string(), 1), ("b".to_string(), 2)]))'),
+            ("std::rc::Rc<std::collections::HashMap<String, i32>>", 'std::rc::Rc::new(std::collections::HashMap::from([("a".to_string(), 1), ("b".to_string(), 2)]))')]
+    mpats = ['#{ "a": 1, "b": 2 }', '#{ "b": 2, "a": 1 }', '#{ "a": 1, .. }', '#{ "a": 2, .. }', '#{ "a": 1 }', '#{ "c": 1, .. }', '#{ "a": > 0, "b": > 5 }', '#{ .. }', '#{ "a": _, "zz": _, .. }', '#{ "a": 1, "b": 2, "c": 3 }']
+    for ty, val in maps:
+        for pt in mpats:
+            c = t3.Case()
+            c.id = k
+            k += 1
+            c.forms = {"std-collection": 1}
+            c.perturbed = True
+            c.meanings = meanings
+            t3.finish_case(c, "", ty, val, "(map (keys %s) (vals %s))" % (strs(["a", "b"]), ints([1, 2])), pt)
+            cases.append(c)
+    # through a struct field and a method (`cache.len(): 2`), as in the documentation
+    decl = "#[derive(Debug)] pub struct DataH { pub cache: std::collections::HashMap<String, i32>, pub tags: std::collections::HashSet<i32>, pub q: std::collections::VecDeque<i32> }"
+    val = 'DataH { cache: std::collections::HashMap::from([("a".to_string(), 1), ("b".to_string(), 2)]), tags: std::collections::HashSet::from([1, 2, 3]), q: std::collections::VecDeque::from([1, 2, 3]) }'
+    sx = "(adt %s (names %s %s %s) (vals (map (keys %s) (vals %s)) (setv %s) (setv %s)))" % (tgen.hexs("DataH"), tgen.hexs("cache"), tgen.hexs("tags"), tgen.hexs("q"), strs(["a", "b"]), ints([1, 2]), ints([1, 2, 3]), ints([1, 2, 3]))
+    for pt in ('DataH { cache: #{ "a": 1, .. }, tags: #(3, ..), q: #(1, 2, 3) }', 'DataH { cache.len(): 2, tags.len(): 3, q.len(): > 2 }', 'DataH { cache: #{ "a": 2, .. }, tags: #(9, ..), .. }',
+               'DataH { cache.len(): 3, .. }', '_ { cache: #{ "b": 2, "a": 1 }, tags: #(1, 2, 3), .. }', 'DataH { cache: #{ "zz": 1, .. }, q: #(1, 2), .. }'):
+        c = t3.Case()
+        c.id = k
+        k += 1
+        c.forms = {"std-collection": 1}
+        c.perturbed = True
+        c.meanings = meanings
+        t3.finish_case(c, decl, "DataH", val, sx, pt)
+        cases.append(c)
+    return cases
+
+
 def repeated_name_chain_cases(rng, _n):
     """Field paths that name the same field (or index) again further down: `inner.inner.id`, `0.0`, `next.next.value` - every step counts."""
     import tgen
@@ -529,6 +587,7 @@ def check(ck, aspect, theorems, t2_parts=("body", "status")):
                                 ("wildcard-struct-sibling", wildcard_shadow_cases, "a wildcard struct next to a sibling field of the same name"),
                                 ("guard-temporaries", guard_temp_cases, "field paths through guard-returning methods: each assertion releases its borrow before the next"),
                                 ("tuple-index-chains", tuple_index_chain_cases, "chains of tuple indices in field paths (`c.0.1` is one float literal token)"),
+                                ("std-collections", std_collection_cases, "map and set patterns on HashMap / HashSet / VecDeque / LinkedList / BinaryHeap / arrays / slices / Box, Rc, Arc of collections"),
                                 ("repeated-name-chains", repeated_name_chain_cases, "field paths that name the root field (or index) again further down"),
                                 ("method-arguments", method_argument_cases, "method calls with several arguments in field paths: arguments in the order written"),
                                 ("set-after-failure", set_after_failure_cases, "set patterns evaluated when the report already holds entries, and before further failing siblings"),
